@@ -224,6 +224,7 @@ def run(chk):
     chk.mark("replay")
     bundled(chk, rng, thorough)
     registries_do_not_share_symbols(chk)
+    array_magnitudes(chk)
     chk.mark("bundled")
     quantities(chk, rng)
     return chk.finish(
@@ -417,6 +418,34 @@ def quantities(chk, rng):
                     continue
                 if not (a == b == c):
                     chk.diverge({"clause": "default-format", "type": T.__name__}, {"default_format": dflt, "str": a, "empty-spec": b, "explicit": c})
+
+
+def array_magnitudes(chk):
+    """ndarray magnitudes: every element appears, in order, in the requested numeric format, in every built-in format"""
+    import numpy as np
+    import pint
+    u = pint.UnitRegistry()
+    for arr in (np.array([1.234, 2.345, -0.5]), np.array([[1.5, 2.25], [3.0, 4.125]])):
+        for mspec in ("", ".2f", ".1f", ".3g"):
+            for fmt in ("D", "P", "C", "L", "Lx", "~L", "~P"):
+                chk.case(("array-magnitude", arr.shape, mspec, fmt))
+                q = u.Quantity(arr, "meter")
+                try:
+                    text = format(q, mspec + fmt)
+                except Exception as e:
+                    chk.diverge({"clause": "format-raises", "type": "ndarray", "exc": type(e).__name__, "src": "quantity"}, {"spec": mspec + fmt})
+                    continue
+                pos, ok = 0, True
+                for x in arr.ravel():
+                    want = format(float(x), mspec) if mspec else None
+                    cands = [want] if want is not None else [repr(float(x)), str(float(x)).rstrip("0").rstrip("."), ("%g" % x)]
+                    hit = min((text.find(c, pos) for c in cands if text.find(c, pos) >= 0), default=-1)
+                    if hit < 0:
+                        ok = False
+                        break
+                    pos = hit + 1
+                if not ok:
+                    chk.diverge({"clause": "magnitude-format", "type": "ndarray", "fmt": fmt.replace("~", "")}, {"spec": mspec + fmt, "text": text, "array": arr.tolist()})
 
 
 def registries_do_not_share_symbols(chk):
